@@ -40,7 +40,7 @@ def run(ck):
         g = dict(g)
         g["calls"] = [pcall(a, "list", extra=False) for a in COVERS]
         groups.append(g)
-    fam = gen.cover_families(ck.rng, 300 if q else 6000, maxn=12)
+    fam = gen.cover_families(ck.rng, 300 if q else 15000, maxn=12)
     for g in fam:
         g = dict(g)
         g["calls"] = [pcall(a, "list", extra=False) for a in COVERS]
@@ -54,7 +54,7 @@ def run(ck):
     if r.violated:
         raise core.Machinery("oracle cross-validation failed: MaxCover")
     run_pack_groups(ck, groups, {"C10"}, "C10 covering guarantees", chunk=6000)
-    big = gen.planted_covers(ck.rng, 40 if q else 600, maxitems=80 if q else 300)
+    big = gen.planted_covers(ck.rng, 40 if q else 2500, maxitems=80 if q else 300)
     big += gen.exact_fill_covers()
     for g in big:
         g["wit"] = []; g["opt"] = 0
